@@ -884,6 +884,35 @@ func (w *World) TrueAggQC(agg hotstuff.AggregateQC) (Verdict, map[hotstuff.ID]bo
 		}
 		return hotstuff.TimeoutMsg{ID: id, View: agg.View(), SyncInfo: hotstuff.NewSyncInfoWith(qc)}.ToBytes()
 	})
+	if len(signers) < w.Q() && w.Scheme == crypto.NameBLS12 {
+		// A BLS aggregate is one group element: who signed is decided by which keys and messages it verifies under, and the
+		// verifier takes those from the certificate's QC map, not from the participant labels. If the element is exactly the sum
+		// of the logged signatures of the map's replicas over their own timeout messages (and the label count agrees, which is
+		// all the labels can say), those replicas are the signers whatever the labels claim.
+		if p := Decompose(agg.Sig()); p.Kind == crypto.NameBLS12 && len(p.Signers) == len(agg.QCs()) {
+			byMap := map[hotstuff.ID]bool{}
+			var pts [][]byte
+			ok := true
+			for id, qc := range agg.QCs() {
+				if int(id) < 1 || int(id) > w.N {
+					ok = false
+					break
+				}
+				ss := w.Log.SigsFor(id, hotstuff.TimeoutMsg{ID: id, View: agg.View(), SyncInfo: hotstuff.NewSyncInfoWith(qc)}.ToBytes())
+				if len(ss) == 0 {
+					ok = false
+					break
+				}
+				pts = append(pts, ss[0])
+				byMap[id] = true
+			}
+			if ok && len(pts) > 0 {
+				if sum, sok := blsSum(pts); sok && bytes.Equal(sum, p.Agg) {
+					signers = byMap
+				}
+			}
+		}
+	}
 	if len(signers) < w.Q() {
 		return MustReject, signers, nil
 	}
